@@ -90,7 +90,7 @@ fn main() {
                 let Ok(asm) = compile(&src, uiua::PreEvalMode::Lazy) else { continue };
                 compiled += 1;
                 {
-                    let mut ex = Export::new();
+                    let mut ex = Export::with_asm(&asm);
                     let root = ex.node(&asm.root);
                     let funs: Vec<String> = asm.functions.iter().map(|f| ex.node(f)).collect();
                     if root.len() + funs.iter().map(|f| f.len()).sum::<usize>() < 20000 {
@@ -134,7 +134,7 @@ fn main() {
                 tries += 1;
                 let src = format!("# Experimental!\n{}", g.program(&mut r));
                 let Ok(asm) = compile(&src, uiua::PreEvalMode::Lazy) else { continue };
-                let mut ex = Export::new();
+                let mut ex = Export::with_asm(&asm);
                 let root = ex.node(&asm.root);
                 let funs: Vec<String> = asm.functions.iter().map(|f| ex.node(f)).collect();
                 let mut env = uiua::Uiua::with_safe_sys().with_execution_limit(std::time::Duration::from_secs(2));
